@@ -144,7 +144,16 @@ def delete_implies_depth(ctx, forest):
         lines = ["find - %s %s" % (fw.hexs(forest.dir), xc.hexlist([a.encode() for a in x])) for x in (a1, a2)]
         r1, r2 = [wc.decode_find(x) for x in xc.run_impl(lines)]
         ctx.count(("delete-order", k, ctx.seed), True, "delete-implies-depth")
-        if r1[1].replace(nm, twin) != r2[1] or r1[0] != 0:
+
+        def post(sp, path):
+            """every entry beneath a directory before the directory, siblings in byte order - from the tree as generated"""
+            out = []
+            if sp[0] == "d":
+                for n in sorted(sp[1]):
+                    out += post(sp[1][n], path + b"/" + n)
+            return out + [path]
+        want = b"".join(x + b"\0" for x in post(spec, twin))
+        if r1[1].replace(nm, twin) != r2[1] or r1[0] != 0 or r2[1] != want:
             bad.append((a1, r1, r2, spec))
     for a1, r1, r2, spec in bad[:1]:
         ctx.violation("find %s visits %r, -depth on a twin tree visits %r" % (a1, r1[1], r2[1]),
